@@ -219,6 +219,9 @@ def check(ctx, rep):
     rule_hook_kind(ctx, rep)
     rule_lost_update(ctx, rep)
     rule_no_swallow(ctx, rep)
+    from .c16 import rule_args_info_fresh
+
+    rule_args_info_fresh(ctx, rep)
     rep.not_covered += [
         "agreement of semgrep positions with libcst positions for all spellings (line/column matching)",
         "semgrep's matching semantics in general (metavariable unification, taint propagation)",
